@@ -32,11 +32,13 @@ struct Cfg {
     fast: bool,
     variant: Variant,
     acquires_each: usize,
+    /// an environment already exists when the threads start (the main thread acquired once)
+    prewarm: bool,
 }
 
 impl Cfg {
     fn name(&self) -> String {
-        format!("R{}A{}x{} {} {:?}", self.requesters, self.acquirers, self.acquires_each, if self.fast { "fast" } else { "rebuild" }, self.variant)
+        format!("R{}A{}x{} {} {:?}{}", self.requesters, self.acquirers, self.acquires_each, if self.fast { "fast" } else { "rebuild" }, self.variant, if self.prewarm { " prewarmed" } else { "" })
     }
 }
 
@@ -88,6 +90,11 @@ fn c20_body(cfg: Cfg, stats: StdArc<StdMutex<Stats>>) -> impl Fn() + Send + Sync
             }
             Ok(env)
         }));
+        if cfg.prewarm {
+            // start from a non-initial state: an environment from version 0 is cached already
+            let g = reloader.acquire_env().expect("creator does not fail");
+            drop(g);
+        }
         let mut handles = vec![];
         for _ in 0..cfg.requesters {
             let (reloader, version, returned) = (reloader.clone(), version.clone(), returned.clone());
@@ -136,7 +143,7 @@ fn c20_body(cfg: Cfg, stats: StdArc<StdMutex<Stats>>) -> impl Fn() + Send + Sync
             assert!(s >= r, "LOST RELOAD at quiescence: last returned request #{} but final environment is from version {}", r, s);
         }
         let calls = creator_calls.load(Ordering::SeqCst);
-        let allowed = 1 + cfg.requesters + requests_from_creator.load(Ordering::SeqCst) + callback_trues.load(Ordering::SeqCst);
+        let allowed = 1 + cfg.requesters + usize::from(cfg.prewarm && cfg.variant == Variant::RequestFromCreator) + requests_from_creator.load(Ordering::SeqCst) + callback_trues.load(Ordering::SeqCst);
         assert!(calls <= allowed, "creator called {} times for {} requests (+{} from the creator, +{} freshness callbacks)", calls, cfg.requesters, requests_from_creator.load(Ordering::SeqCst), callback_trues.load(Ordering::SeqCst));
         if cfg.fast {
             assert!(calls == 1, "with fast reload the creator runs once, not {} times", calls);
@@ -157,25 +164,27 @@ fn configs(tier: &str) -> Vec<(Cfg, usize)> {
     // (configuration, preemption bound)
     let mut v = vec![];
     let variants = [Variant::Plain, Variant::RequestFromCreator, Variant::FreshnessCallback];
+    for prewarm in [false, true] {
     for fast in [false, true] {
         for variant in variants {
             for (r, a) in [(1, 1), (1, 2), (2, 1), (2, 2)] {
                 // quick: 3 preemptions for two threads, 2 for three, 1 for four
                 let bound = if tier == "thorough" { 3 } else { 5 - (r + a).max(2) };
-                v.push((Cfg { requesters: r, acquirers: a, fast, variant, acquires_each: 1 }, bound));
+                v.push((Cfg { requesters: r, acquirers: a, fast, variant, acquires_each: 1, prewarm }, bound));
             }
             // one acquirer acquiring twice: request between two acquires of the same thread
-            v.push((Cfg { requesters: 1, acquirers: 1, fast, variant, acquires_each: 2 }, if tier == "thorough" { 4 } else { 3 }));
+            v.push((Cfg { requesters: 1, acquirers: 1, fast, variant, acquires_each: 2, prewarm }, if tier == "thorough" { 4 } else { 3 }));
             if tier == "thorough" {
                 // three requests / three acquires (the quantifier's upper end): all five thread mixes for
                 // the plain protocol, the 3+3 mix for the variants
                 for (r, a) in [(3, 1), (1, 3), (3, 2), (2, 3), (3, 3)] {
-                    if variant == Variant::Plain || (r, a) == (3, 3) {
-                        v.push((Cfg { requesters: r, acquirers: a, fast, variant, acquires_each: 1 }, 2));
+                    if (variant == Variant::Plain && !prewarm) || (r, a) == (3, 3) || (prewarm && variant == Variant::Plain && (r, a) == (1, 3)) {
+                        v.push((Cfg { requesters: r, acquirers: a, fast, variant, acquires_each: 1, prewarm }, 2));
                     }
                 }
             }
         }
+    }
     }
     v
 }
